@@ -88,7 +88,7 @@ def kindHead : Nat → Bytes
 
 theorem tyKey_head (t : Ty) : ∃ r, tyKey t = 1 :: 0x74 :: r := by
   cases t with
-  | callable ts => cases ts <;> simp [tyKey]
+  | callable h ts => cases h <;> simp [tyKey]
   | _ => simp [tyKey, rxTyKey]
 
 theorem mk_head (x : Val) (h : cmp x = true) : ∃ r, mk x = kindHead (kind x) ++ r := by
